@@ -171,6 +171,35 @@ def run(rep):
             rep.violation({'kind': 'fine-grid', 'clause': clause, 'collected': got, 'expected': expd, 'largest_distance': dmax, 'meta': meta})
     rep.traces += n_fine
     rep.extra['fine_grid_cases_near_special_positions'] = n_fine
+    # ---- scale in the number of positions (beyond any block size): a judged-size set of positions repeated K times gives K times the
+    # count the membership rule gives for the set (mirror_count, bound to TraceShape above)
+    from pymatgen.core import Lattice as _L, PeriodicSite as _PS
+    from pymatgen.symmetry.groups import SpaceGroup as _SG
+    from gemdat.shape import ShapeAnalyzer as _SA
+    for sg_name, fam in (('P-1', 'tric2'), ('Pnma', 'ortho')):
+        G = EXTRA_FAMILIES.get(fam) or gen.FAMILIES[fam]
+        ops = sf.ops_of(sg_name, G)
+        M = gen.lattice_matrix(G, 'pmg', rng)
+        w_perp, _ = gen.perp_widths(G)
+        site = [int(x) for x in rng.integers(0, N, size=3)]
+        Q = int(rng.integers(int((0.5 * N) ** 2), int((0.4 * min(w_perp) * N) ** 2)))
+        radius = math.sqrt(Q + 0.5) / N
+        P = []
+        while len(P) < 9:
+            op = ops[int(rng.integers(0, len(ops)))]
+            img = sf.image(op, site, N, 1)
+            P.append([int((img[i] + rng.integers(-6, 7)) % N) for i in range(3)])
+        expect_small = sf.mirror_count(G, N, 1, ops, site, P, Q + 1)
+        K = -(-(150000 if quick else 450000) // len(P))
+        sa = _SA(lattice=_L(M), sites=[_PS('Si', np.array(site) / N, _L(M), label='A')], spacegroup=_SG(sg_name))
+        big = np.tile(np.array(P) / N, (K, 1))
+        n_big = len(np.asarray(sa.analyze_positions(big, radius=radius)[0].coords).reshape(-1, 3))
+        rep.evaluations += 1
+        rep.nontrivial += 1
+        if n_big != K * expect_small:
+            rep.violation({'kind': 'scale', 'clause': 'count-of-collected-points-many-positions', 'positions': int(len(big)), 'collected': n_big,
+                           'expected': K * expect_small, 'spacegroup': sg_name})
+    rep.extra['many_positions'] = 150000 if quick else 450000
     if n_fine == 0:
         raise core.Machinery('no fine-grid case could be generated')
     rep.exhaustive = True
